@@ -66,7 +66,7 @@ def strategy(ctx):
         else:
             cfg["strategy"] = draw(st.sampled_from(["filter", "fixedinterval"]))
         case = dict(cfg=cfg, mode=mode, p=draw(gen.vec(8, st.floats(0.0, 1.0))), t0=draw(gen.quarter(-4, 4)),
-                    T=draw(st.floats(0.5, 1.5)), log_rtol=draw(gen.exponent(-9.0, -2.0)), atol_factor=draw(st.sampled_from([0.1, 1.0, 10.0])),
+                    T=draw(st.floats(0.5, 1.5)), log_rtol=draw(gen.exponent(-9.0, -2.0)), atol_factor=draw(st.sampled_from([1e-3, 0.1, 1.0, 1.0, 10.0, 1e3])),
                     dt0=draw(gen.log10_uniform(-4.0, 0.5)), eps=draw(st.sampled_from([1e-8, 1e-12])),
                     delta=draw(st.sampled_from(["0", "+1e-15", "-1e-15", "+1e-10", "-1e-10", "+1e-6", "-1e-6", "+1.5eps", "-1.5eps", "+0.9eps", "-0.9eps"])),
                     which_step=draw(st.integers(1, 3)), fracs=sorted(draw(st.lists(st.floats(0.1, 0.9), min_size=2, max_size=2, unique=True))),
